@@ -1,10 +1,167 @@
-// Package c10 holds the runtime monitors for property C10 (see DESIGN.md section 4).
+// Package c10 holds the runtime monitors for property C10: priorities order
+// execution; the first failing rule ends a trigger sequence (DESIGN.md
+// section 4).
+//
+// Files: model.go (reference models: per-cascade priority queue, highest-
+// priority reference with the known deviations as switches), scenario.go
+// (cascade scenarios as data + generators), engine.go (executor on a real
+// processor and the four oracles), direct.go (Push/Pop histories on the
+// exported TaskQueue checked with porcupine), sinks.go (the same through ECAL
+// sinks).
 package c10
 
-import "verif/harness/core"
+import (
+	"fmt"
+	"os"
+	"time"
+
+	"verif/harness/core"
+	"verif/harness/sched"
+)
 
 func init() { core.Register("C10", Run) }
 
+const ruleText = "streams: queue-direct = seeded Push/Pop scripts (<=60 operations, 1-6 goroutines, 1-3 cascades, monitor priorities from {-7,-1,0,1,2,5,9}, real *engine.Task values captured from a processor) on a fresh engine.TaskQueue, history checked by porcupine against a per-cascade (priority, arrival) queue model; " +
+	"hp-enum-host / hp-enum-rule = every assignment of (priority from {0,1,2,5,9}) x (triggering | non-triggering) to k<=4 child events, added by the host to a root monitor while the worker is held / added by a root rule (quick tier: k<=3 complete, k=4 every 9th); " +
+	"hp-heap = 5-9 children with distinct priorities from 0..11 plus late grandchildren (>=6 priorities alive, finishes out of priority order), 1-4 workers; " +
+	"fail-rank = one event with n=1..8 rules, failing rule at every sorted rank x {flag on, off} x 4 priority patterns (distinct, pairs of equals, all equal, second failure later) x workers {1,3}; " +
+	"cascade = seeded random forests (<=44 events, depth<=4, <=8 rules per event with priorities from {0,1,2,5,9}, <=4 children per rule with monitor priorities from {0,1,2,5,9} or {0,1,2,3,5,6,7,9,11}, skipped children next to active ones at equal priority, failing rules, both flag settings, 1-3 cascades, workers 1..8, hook noise); " +
+	"sinks = the same forests as ECAL sinks (priority attribute, addEvent, raise) on the provider's own processor. " +
+	"Every event has its own kind and every rule one kind pattern (no state/scope matching, no suppression: C01 owns those). " +
+	"A case is non-trivial iff an ordering decision was observed: a dequeue from a cascade queue holding >=2 tasks, an event with >=2 rules, a highest-priority sample taken while a priority >0 was the expected answer or concurrently with bookkeeping updates, a failing rule, or (queue-direct) >=2 successful pops with >=2 distinct (cascade, priority) classes; distinct = distinct scenario text / script."
+
 // Run is the check.
 func Run(c *core.Ctx) {
+	c.Note("rule", ruleText)
+	tr := sched.NewTracer()
+	tr.Install()
+	defer sched.Uninstall()
+
+	t0 := time.Now()
+	lap := func(name string) {
+		if os.Getenv("VH_C10_TIMING") != "" {
+			fmt.Fprintf(os.Stderr, "timing %s %.2fs\n", name, time.Since(t0).Seconds())
+		}
+		t0 = time.Now()
+	}
+	engineCase := func(stream string, idx int, sc *scenario) {
+		text := sc.String()
+		c.Begin(0, stream, idx, text)
+		res := runScenario(tr, sc, c.Seed*1000003+uint64(idx))
+		judge(c, stream, idx, res)
+		c.End(0)
+	}
+
+	// 2a: direct histories on the exported queue
+	{
+		const stream = "queue-direct"
+		n := c.Pick(3000, 60000)
+		var tasks []*dtask
+		for i := 0; i < n; i++ {
+			if !c.Take(stream, i) {
+				continue
+			}
+			if tasks == nil {
+				c.Begin(0, stream, i, "capturing tasks from a processor with a held worker")
+				var problem string
+				tasks, problem = makeTasks(tr)
+				c.End(0)
+				if problem != "" {
+					c.Inconclusive("queue-direct: "+problem, stream, i, nil)
+					break
+				}
+			}
+			c.Begin(0, stream, i, "direct history")
+			directCase(c, tr, tasks, i)
+			c.End(0)
+		}
+	}
+
+	lap("queue-direct")
+	// 3: exhaustive small assignments
+	for shape, stream := range []string{"hp-enum-host", "hp-enum-rule"} {
+		idx := 0
+		for k := 1; k <= 4; k++ {
+			for x := 0; x < enumCount(k); x++ {
+				idx++
+				if k == 4 && c.Quick() && x%9 != shape {
+					continue
+				}
+				if !c.Take(stream, idx) {
+					continue
+				}
+				engineCase(stream, idx, genEnum(k, x, shape))
+			}
+		}
+	}
+
+	lap("hp-enum")
+	{
+		const stream = "hp-heap"
+		n := c.Pick(1200, 24000)
+		for i := 0; i < n; i++ {
+			if c.Take(stream, i) {
+				engineCase(stream, i, genHeap(c.Rng(stream, i)))
+			}
+		}
+	}
+
+	lap("hp-heap")
+	// 4: failing rule at every rank
+	{
+		const stream = "fail-rank"
+		idx := 0
+		reps := c.Pick(1, 6)
+		for rep := 0; rep < reps; rep++ {
+			for n := 1; n <= 8; n++ {
+				for rank := 0; rank < n; rank++ {
+					for pattern := 0; pattern < 4; pattern++ {
+						for _, ff := range []bool{true, false} {
+							for _, w := range []int{1, 3} {
+								idx++
+								if c.Take(stream, idx) {
+									engineCase(stream, idx, genFailRank(n, rank, pattern, ff, w, c.Rng(stream, idx)))
+								}
+							}
+						}
+					}
+				}
+			}
+		}
+	}
+
+	lap("fail-rank")
+	{
+		const stream = "cascade"
+		n := c.Pick(1800, 40000)
+		for i := 0; i < n; i++ {
+			if c.Take(stream, i) {
+				engineCase(stream, i, genRandom(c.Rng(stream, i), c.Quick()))
+			}
+		}
+	}
+
+	lap("cascade")
+	{
+		const stream = "sinks"
+		n := c.Pick(600, 10000)
+		for i := 0; i < n; i++ {
+			if !c.Take(stream, i) {
+				continue
+			}
+			sc := genSinkScenario(c.Rng(stream, i))
+			c.Begin(0, stream, i, sc.String())
+			res, src := runSinkScenario(tr, sc, c.Seed*7919+uint64(i))
+			if res.problem != "" {
+				c.Inconclusive(res.problem, stream, i, map[string]interface{}{"source": src})
+			} else {
+				judge(c, stream, i, res)
+				if i < 48 {
+					c.Sample("sinks-source", map[string]interface{}{"source": src, "flag_set_by_harness": fmt.Sprint(!sc.failFirst)})
+				}
+			}
+			c.End(0)
+		}
+	}
+	lap("sinks")
 }
